@@ -1,5 +1,7 @@
 import LarkVerif.Threads
 import LarkVerif.Indenter
+import LarkVerif.Instance
+import LarkVerif.Extracted
 /-! # C10 — a Lark instance is a pure function of its input: reusable and thread-safe (lazy-initialisation core) -/
 namespace Props.C10
 
@@ -14,5 +16,38 @@ theorem publish_before_merge_is_unsafe : ThProto.run false (ThProto.initSys 2) [
 
 /-- the stateful Indenter post-lexer: the outcome of a stream does not depend on what earlier streams (complete, failed, abandoned) left behind -/
 theorem indenter_history_independent (old₁ old₂ : IndProto.St) (toks : List IndProto.Tok) : IndProto.process old₁ toks = IndProto.process old₂ toks := rfl
+
+/-- **History independence of an instance whose only persistent state is lazily initialised fields**: after any history of completed, failed and
+    abandoned calls, every call returns what it returns on a fresh instance of the same configuration (`InstProto`: a call forces the fields it needs and
+    computes its result from configuration, argument and forced values). -/
+theorem instance_history_independent {Cfg Val Arg Out : Type} (C : InstProto.Class Cfg Val Arg Out) (cfg : Cfg) (ops : List (InstProto.Op Arg)) :
+    InstProto.run C (InstProto.fresh C cfg) ops = ops.map (InstProto.pureOut C cfg) := InstProto.history_independent C cfg ops
+
+/-- **What persists on an instance is exactly the modelled state** — read from the current source on every run (`Extracted.stateInventory`: every attribute
+    of `self` that a non-constructor method assigns, deletes, subscripts for writing or mutates through a container method, and every module-level name
+    written from inside a function, in the files on the parse path).  Of these,
+    * `BasicLexer._scanner / _search_scanner / callback`, `PatternRE._width`, `TreeMatcher._parser_cache` are the lazily initialised fields of `InstProto`
+      (computed from the configuration alone; `lazy_init_safe_under_every_schedule` covers their publication order);
+    * `Indenter.indent_level / paren_level` are reset at the start of every stream (`indenter_history_independent`);
+    * `Lark.*` are written by `_load`/`_build_*` during construction only; `LarkOptions.options[]` by `__setattr__` during construction;
+    * everything else lives on per-call objects (the line counter, forest nodes and visitors, the interactive parser's result, trees and exceptions handed
+      to the caller, the two container classes).
+    A new cache, memo or flag on any of these classes changes the extracted table and breaks this obligation. -/
+theorem instance_state_is_the_modelled_state : Extracted.stateInventory =
+    [("earley_forest.py:ForestToParseTree", ["_cache", "_cache[]", "_cycle_node", "_on_cycle_retreat", "_successful_visits.add", "_successful_visits.remove"]),
+     ("earley_forest.py:ForestTransformer", ["data[]", "node_stack.append", "node_stack.pop"]),
+     ("earley_forest.py:SymbolNode", ["_children.add", "paths.add", "paths_loaded"]),
+     ("exceptions.py:UnexpectedToken", ["_accepts"]),
+     ("indenter.py:Indenter", ["indent_level", "indent_level.append", "indent_level.pop", "paren_level"]),
+     ("lalr_interactive_parser.py:InteractiveParser", ["result"]),
+     ("lark.py:Lark", ["_callbacks", "_callbacks.update", "_parse_tree_builder", "_terminals_dict", "grammar", "lexer_conf", "options", "parser", "rules", "source_path", "terminals"]),
+     ("lark.py:LarkOptions", ["options[]"]),
+     ("lexer.py:BasicLexer", ["_scanner", "_search_scanner", "callback"]),
+     ("lexer.py:LineCounter", ["char_pos", "column", "line", "line_start_pos"]),
+     ("lexer.py:PatternRE", ["_width"]),
+     ("tree.py:Tree", ["_meta", "children", "children[]", "data"]),
+     ("tree_matcher.py:TreeMatcher", ["_parser_cache[]"]),
+     ("utils.py:Enumerator", ["enums[]"]),
+     ("utils.py:OrderedSet", ["d[]"])] := by decide
 
 end Props.C10
